@@ -18,10 +18,13 @@
 (* first-select + timeout + Slack ms) true.  Hang events (the driver's           *)
 (* watchdog found goroutines that never returned) have no action.               *)
 (*                                                                              *)
-(* The instance is the protocol with either notify discipline (a send into a    *)
-(* full slot replaces the unread head: FixNotify; the implementation only ever  *)
-(* sends into an empty slot, which is the same action) and the timer as the     *)
-(* statement has it (created once: FixTimer).  updateBest reads the heads one   *)
+(* The instance is the protocol the code implements (FixNotify = FixTimer =      *)
+(* FixSetHead = TRUE): a send into a full slot replaces the unread head (a send  *)
+(* into an empty slot is the same action for either notify discipline), the      *)
+(* timer is created once, the connection lock is released before the head is     *)
+(* published.  Unobservable channel operations are placed only next to the       *)
+(* events they conflict with or that confirm them (see SilentConn), which keeps  *)
+(* the search linear in the length of the trace.  updateBest reads the heads one *)
 (* by one while connections may advance: any head vector between the values at  *)
 (* lock time and at unlock time is accepted as the snapshot.                    *)
 EXTENDS Pool, Json, Integers
@@ -85,8 +88,17 @@ TConn ==
     [] K = "smh.sent"   -> cpc[k] = "idle" /\ NoOp          \* the silent SmhSend has happened
     [] K = "smh.ret"    -> cpc[k] = "idle" /\ NoOp
 ConnKinds == {"sethead", "smh.enter", "smh.locked", "smh.send", "smh.sent", "smh.ret"}
-SilentConn == \E k \in Conns : \/ SmhSend(k) /\ UNCHANGED aux
-                               \/ cpc[k] = "locked" /\ cnew[k] <= head[k] /\ SmhSet(k) /\ UNCHANGED aux
+\* Silent steps are demand driven: a step that is not bound to an event is taken only immediately before an event
+\* that confirms it or that it conflicts with (anywhere else it commutes with everything, so "as late as possible"
+\* loses no behaviour).  This keeps the search linear in the length of the trace instead of exponential in the
+\* number of pending channel operations.
+\*   SmhSend(k)   conflicts with other sends and with RunRecv (order / room in the update channel); confirmed by smh.sent
+\*   RunRecv      conflicts with the sends; confirmed by run.recv
+\*   RunSend(w)   conflicts with WRecv(w) (the slot of w's channel); confirmed by ntf.sent, needed by wait.recv of w
+\*   WRecv(w)     conflicts with RunSend(w); confirmed by wait.recv of w
+\*   SmhSet(k) without update (just releases the connection lock): confirmed by smh.ret of k
+SilentConn == \E k \in Conns : \/ K \in {"smh.sent", "run.recv"} /\ SmhSend(k) /\ UNCHANGED aux
+                               \/ K = "smh.ret" /\ E.i = k /\ cpc[k] = "locked" /\ cnew[k] <= head[k] /\ SmhSet(k) /\ UNCHANGED aux
 
 \* ---------------------------------------------------------------- run loop
 ConnAt(h) == [k \in Conns |-> [alive |-> alive[k], seqno |-> h[k], rtt |-> rtt[k]]]
@@ -107,9 +119,10 @@ TRun ==
     [] K = "ntf.sent" -> rcur = 0 /\ E.w \notin rtodo /\ rpc \in {"send", "exit"} /\ NoOp
     [] K = "ntf.exit" -> RunRUnlock /\ UNCHANGED aux
 RunKinds == {"run.tick", "upd.enter", "upd.locked", "upd.done", "run.recv", "ntf.rlocked", "ntf.send", "ntf.sent", "ntf.exit"}
-SilentRun == \/ RunRecv /\ UNCHANGED aux
-             \/ rcur # 0 /\ RunSend(rcur) /\ rcur' = 0 /\ UNCHANGED <<strat, hlo, precv, armed, hsl>>
-             \/ l <= N /\ K = "upd.locked" /\ RunTick /\ UNCHANGED aux        \* Announce just before Acquire
+SilentRun == \/ K \in {"run.recv", "smh.sent"} /\ RunRecv /\ UNCHANGED aux
+             \/ rcur # 0 /\ (K = "ntf.sent" \/ (K = "wait.recv" /\ E.i = rcur))
+                 /\ RunSend(rcur) /\ rcur' = 0 /\ UNCHANGED <<strat, hlo, precv, armed, hsl>>
+             \/ K = "upd.locked" /\ RunTick /\ UNCHANGED aux        \* Announce just before Acquire
 
 \* ----------------------------------------------------------------- callers
 TStart(w) ==      \* a call begins in slot w (slots are reused once the previous call has returned)
@@ -157,10 +170,11 @@ TWaiter ==
 WaiterKinds == {"call", "sub.enter", "sub.locked", "sub.read", "sub.imm", "sub.reg", "wait.select", "wait.recv", "wait.timeout",
                 "cancel", "wait.cancel", "unsub.enter", "unsub.locked", "unsub.done", "ret"}
 SilentWaiter ==
-  \/ \E w \in Waiters : precv[w] = -1 /\ ch[w] # <<>> /\ WRecv(w) /\ precv' = [precv EXCEPT ![w] = Head(ch[w])[1]]
+  \/ \E w \in Waiters : /\ (K = "wait.recv" /\ E.i = w) \/ (K = "ntf.sent" /\ rcur = w)
+                        /\ precv[w] = -1 /\ ch[w] # <<>> /\ WRecv(w) /\ precv' = [precv EXCEPT ![w] = Head(ch[w])[1]]
                         /\ UNCHANGED <<strat, hlo, rcur, armed, hsl>>
-  \/ l <= N /\ K = "sub.locked" /\ WSubAnn(E.i) /\ UNCHANGED aux
-  \/ l <= N /\ K = "unsub.locked" /\ WUnsubAnn(E.i) /\ UNCHANGED aux
+  \/ K = "sub.locked" /\ WSubAnn(E.i) /\ UNCHANGED aux
+  \/ K = "unsub.locked" /\ WUnsubAnn(E.i) /\ UNCHANGED aux
 
 TEnv == K = "flip" /\ alive' = [alive EXCEPT ![E.a] = E.alive]
         /\ UNCHANGED <<head, rtt, clk, updCh, cpc, cnew, poolVars, waitVars, runVars, now, flips, aux>>
@@ -186,7 +200,9 @@ Event == /\ l <= N
               [] OTHER -> FALSE                 \* Hang, Panic, ... are not behaviours of the pool
          /\ Holds'
          /\ Consume
-Silent == (SilentConn \/ SilentRun \/ SilentWaiter) /\ UNCHANGED <<l, seg>>
+\* silent steps belong to the event that is next: only once the clock has caught up with it, never past the end
+Silent == /\ l <= N /\ K # "Reset" /\ E.t <= now
+          /\ (SilentConn \/ SilentRun \/ SilentWaiter) /\ UNCHANGED <<l, seg>>
 TraceNext == Event \/ Advance \/ Silent
 TraceSpec == TraceInit /\ [][TraceNext]_tvars
 
